@@ -595,7 +595,10 @@ class BeautifulSoup(Tag):
         # the same tests twice, convert Unicode to a bytestring and
         # operate on the bytestring.
         if isinstance(markup, str):
-            markup_b = markup.encode("utf8")
+            # A str can contain lone surrogates (that's how Python
+            # represents undecodable bytes in filenames), which the
+            # strict error handler refuses to encode.
+            markup_b = markup.encode("utf8", "surrogatepass")
         else:
             markup_b = markup
 
